@@ -18,7 +18,8 @@ Open Scope N_scope.
    3 reads_nodup: no name is opened successfully twice, in a file system that
      does not report a file it has opened as not existing;
    4 cycle_is_error: if a cycle of extends/import/render references between
-     sources can be reached from the root, the result is an error;
+     sources can be reached from the root, the result is an error; and
+     cycle_error_sound: a cycle error is reported only when such a cycle exists;
    5 opens_valid: for a valid root name, every name given to Open is valid. *)
 Definition C18_statement : Prop := C18_full.
 
